@@ -374,6 +374,22 @@ Proof.
   rewrite (H x) by (left; reflexivity). rewrite IH by (intros y Hy; apply H; right; exact Hy). reflexivity.
 Qed.
 
+Lemma migrate_node_eq o p ov cs st :
+  migrate_node sha256 (AN o p ov cs) st =
+  let '(st1, cs', refs) := migrate_children sha256 cs st in
+  let '(st2, ov', sv) := migrate_value sha256 ov st1 in
+  let body := enc_rec (mkRec (hash_node sha256 (erase (AN o p ov cs))) p sv (combine (labels cs) refs)) in
+  let '(st3, r) := store_raw st2 body in
+  (st3, AN (Some (Some r)) p ov' cs', r).
+Proof. reflexivity. Qed.
+
+Lemma migrate_children_cons c t r st :
+  migrate_children sha256 (ACons c t r) st =
+  let '(st1, r', refs) := migrate_children sha256 r st in
+  let '(st2, t', x) := migrate_node sha256 t st1 in
+  (st2, ACons c t' r', x :: refs).
+Proof. reflexivity. Qed.
+
 Lemma store_raw_mono st d : s_next st <= s_next (fst (store_raw st d)).
 Proof. unfold store_raw. cbn [fst s_next]. lia. Qed.
 
@@ -389,15 +405,16 @@ Lemma migrate_mono_mut :
   /\ (forall f st, s_next st <= s_next (fst (fst (migrate_children sha256 f st)))).
 Proof.
   apply atree_aforest_ind.
-  - intros o p ov cs IH st. cbn [migrate_node]. specialize (IH st).
+  - intros o p ov cs IH st. rewrite migrate_node_eq. specialize (IH st).
     destruct (migrate_children sha256 cs st) as [[st1 cs'] refs]. cbn [fst] in IH.
     pose proof (migrate_value_mono ov st1) as H2.
     destruct (migrate_value sha256 ov st1) as [[st2 ov'] sv]. cbn [fst] in H2.
+    cbv zeta.
     match goal with |- context [store_raw st2 ?b] => pose proof (store_raw_mono st2 b) as H3;
       destruct (store_raw st2 b) as [st3 r3] end.
     cbn [fst] in *. lia.
   - intros st. cbn. lia.
-  - intros c t IHt r IHr st. cbn [migrate_children]. specialize (IHr st).
+  - intros c t IHt r IHr st. rewrite migrate_children_cons. specialize (IHr st).
     destruct (migrate_children sha256 r st) as [[st1 r'] refs]. cbn [fst] in IHr.
     specialize (IHt st1). destruct (migrate_node sha256 t st1) as [[st2 t'] x]. cbn [fst] in *. lia.
 Qed.
@@ -418,19 +435,18 @@ Lemma migrate_props_mut :
            load_kids_with (load_node fuel st'') (combine (labels f) refs) = Some (erase_f f)).
 Proof.
   apply atree_aforest_ind.
-  - intros o p ov cs IH st st' t' r E Hb [Hp Hf] Hn. cbn [migrate_node] in E.
+  - intros o p ov cs IH st st' t' r E Hb [Hp Hf] Hn. rewrite migrate_node_eq in E.
     destruct (migrate_children sha256 cs st) as [[st1 cs'] refs] eqn:E1.
     destruct (migrate_value sha256 ov st1) as [[st2 ov'] sv] eqn:E2.
-    destruct (store_raw st2 _) as [st3 r3] eqn:E3 in E. injection E as <- <- <-.
-    assert (S3 : exists body, store_raw st2 body = (st3, r3)) by (eexists; exact E3).
-    destruct S3 as [body E3']. rewrite E3' in E3. injection E3 as <-.
+    cbv zeta in E. destruct (store_raw st2 _) as [st3 r3] eqn:E3 in E. injection E as <- <- <-.
     assert (N23 : s_next st2 <= s_next st3).
-    { pose proof (store_raw_mono st2 body) as H. rewrite E3' in H. exact H. }
+    { match type of E3 with store_raw st2 ?b = _ => pose proof (store_raw_mono st2 b) as H end.
+      rewrite E3 in H. exact H. }
     assert (N12 : s_next st1 <= s_next st2).
     { pose proof (migrate_value_mono ov st1) as H. rewrite E2 in H. exact H. }
     destruct (IH st st1 cs' refs E1 Hb Hf ltac:(lia)) as (B1 & X1 & L1 & R1 & Len1 & Er1 & Ld1).
     destruct (migrate_value_props _ _ _ _ _ E2 B1 ltac:(lia)) as (B2 & X2 & L2 & Ev & Sv & Lv).
-    destruct (store_raw_props _ _ _ _ E3' B2) as (B3 & X3 & L3 & Hr3 & Hnext3).
+    destruct (store_raw_props _ _ _ _ E3 B2) as (B3 & X3 & L3 & Hr3 & Hnext3).
     split; [exact B3|]. split; [eapply extends_trans; [exact X1|]; eapply extends_trans; [exact X2 | exact X3]|].
     split; [lia|]. split; [lia|].
     split; [cbn [erase]; rewrite Ev, Er1; reflexivity|].
@@ -446,13 +462,13 @@ Proof.
       reflexivity.
     + unfold rec_ok. cbn [r_value r_children r_path r_hash].
       split; [apply sha_len|]. split; [exact Hp|]. split; [exact Sv|].
-      unfold kids_ok. clear - R1 Len1 L2 N23 Hn Hnext3.
+      unfold kids_ok.
       assert (Hlt : Forall (fun x => x < 2 ^ 64) refs) by (eapply Forall_impl; [|exact R1]; cbn; intros; lia).
-      clear R1. revert refs Hlt Len1. generalize (labels cs). intros ls refs Hlt _.
-      revert ls. induction Hlt as [|x refs Hx _ IHr]; intros [|c ls]; cbn [combine]; constructor; auto.
+      clear - Hlt. generalize (labels cs). intros ls. revert ls.
+      induction Hlt as [|x refs Hx _ IHr]; intros [|c ls]; cbn [combine]; constructor; auto.
   - intros st st' f' refs E Hb _ Hn. cbn [migrate_children] in E. injection E as <- <- <-.
     repeat split; try assumption; try apply extends_refl; try lia; constructor.
-  - intros c t IHt r IHr st st' f' refs E Hb [Ht Hr] Hn. cbn [migrate_children] in E.
+  - intros c t IHt r IHr st st' f' refs E Hb [Ht Hr] Hn. rewrite migrate_children_cons in E.
     destruct (migrate_children sha256 r st) as [[st1 r'] refs1] eqn:E1.
     destruct (migrate_node sha256 t st1) as [[st2 t'] x] eqn:E2. injection E as <- <- <-.
     assert (N12 : s_next st1 <= s_next st2).
@@ -471,3 +487,557 @@ Proof.
 Qed.
 
 End StoreLoad.
+
+(** * Corollaries: [migrate] and the first [store_update] of an in-memory state *)
+
+Definition root_ok (r : option atree) : Prop :=
+  match r with Some t => tree_ok t | None => True end.
+
+Section Corollaries.
+Variable sha256 : list N -> list N.
+Hypothesis sha_len : forall x, length (sha256 x) = 32%nat.
+
+Lemma bounded_empty : bounded empty_store.
+Proof. constructor. Qed.
+
+(** Migrating writes the whole tree to the new store; the new state is the reference of
+    the root; following the references from it loads the same tree, and the hash stored
+    with every node is the hash of the subtree below it. *)
+Theorem migrate_loads r st' r' :
+  migrate sha256 r empty_store = (st', r') -> root_ok r -> s_next st' < 2 ^ 64 ->
+  erase_root r' = erase_root r
+  /\ match r' with
+     | None => r = None
+     | Some t' =>
+         exists x, root_ref r' = Some x
+         /\ forall fuel, (theight (erase t') <= fuel)%nat ->
+              load_node fuel st' x = Some (erase t', hash_node sha256 (erase t'))
+     end.
+Proof.
+  unfold migrate. destruct r as [t|]; [|intros E _ _; injection E as <- <-; split; reflexivity].
+  destruct (migrate_node sha256 t empty_store) as [[st1 t1] x] eqn:E1. intros E Hok Hn. injection E as <- <-.
+  destruct (proj1 (migrate_props_mut sha256 sha_len) t empty_store st1 t1 x E1 bounded_empty Hok Hn)
+    as (_ & _ & _ & _ & Et & Ld).
+  split; [cbn [erase_root option_map]; rewrite Et; reflexivity|].
+  exists x. split.
+  - destruct t as [o p ov cs]. rewrite migrate_node_eq in E1.
+    destruct (migrate_children sha256 cs empty_store) as [[sa csa] rfa].
+    destruct (migrate_value sha256 ov sa) as [[sb ovb] svb]. cbv zeta in E1.
+    destruct (store_raw sb _) as [sc rc] in E1. injection E1 as _ <- <-. reflexivity.
+  - intros fuel Hf. rewrite Et in *. apply Ld; [apply extends_refl | exact Hf].
+Qed.
+
+(** ** Records of [serialize] *)
+
+Lemma lenN_flabels cs : lenN (flabels cs) = N.of_nat (flen cs).
+Proof. unfold lenN. f_equal. induction cs as [|c t r IH]; cbn; congruence. Qed.
+
+Definition ser_value_dec (ov : option value) : option (value * option (list N)) :=
+  match ov with
+  | None => None
+  | Some v => Some (v, if lenN v <=? INLINE_VALUE_LEN then None else Some (hash_value sha256 v))
+  end.
+
+Lemma dec_ser_value_enc v rest : lenN v < 2 ^ 32 ->
+  dec_ser_value (ser_value sha256 (Some v) ++ rest)
+  = Some (v, if lenN v <=? INLINE_VALUE_LEN then None else Some (hash_value sha256 v), rest).
+Proof.
+  intros Hl. unfold ser_value, dec_ser_value. rewrite <- !app_assoc. unfold be32.
+  rewrite dec_uint_enc by (unfold pow256; cbn; exact Hl).
+  destruct (lenN v <=? INLINE_VALUE_LEN).
+  - cbn [app]. rewrite take_n_app. reflexivity.
+  - rewrite (take_app (hash_value sha256 v) _ 32) by (unfold hash_value; apply sha_len).
+    rewrite take_n_app. reflexivity.
+Qed.
+
+(** Every record written by [serialize] is read back by [deserialize]'s record reader:
+    distance to the parent, hash, path, value (with its hash when it is long), labels. *)
+Theorem dec_ser_record_enc back p ov cs rest :
+  back < 2 ^ 32 -> path_ok p -> (match ov with Some v => lenN v < 2 ^ 32 | None => True end) ->
+  dec_ser_record (ser_record sha256 back (Node p ov cs) ++ rest)
+  = Some (mkD back (hash_node sha256 (Node p ov cs)) p (ser_value_dec ov) (flabels cs), rest).
+Proof.
+  intros Hb Hp Hv. unfold ser_record, dec_ser_record. rewrite <- !app_assoc. unfold be32.
+  rewrite dec_uint_enc by (unfold pow256; cbn; exact Hb).
+  rewrite (take_app (hash_node sha256 (Node p ov cs)) _ 32) by (destruct cs; apply sha_len).
+  rewrite dec_path_enc by exact Hp.
+  destruct ov as [v|].
+  - rewrite dec_ser_value_enc by exact Hv. cbn [app].
+    rewrite (take_n_app_eq _ (flabels cs) rest) by (symmetry; apply lenN_flabels). reflexivity.
+  - cbn [ser_value app].
+    rewrite (take_n_app_eq _ (flabels cs) rest) by (symmetry; apply lenN_flabels). reflexivity.
+Qed.
+
+End Corollaries.
+
+(** * [store_update] of a state that lives in memory only (fresh, or just deserialised) *)
+
+Fixpoint in_memory (t : atree) : bool :=
+  match t with
+  | AN o _ ov cs =>
+      (match o with Some (Some _) => false | _ => true end)
+      && (match ov with Some (_, Some None) => true | None => true | _ => false end)
+      && in_memory_f cs
+  end
+with in_memory_f (f : aforest) : bool :=
+  match f with
+  | ANil => true
+  | ACons _ t r => in_memory t && in_memory_f r
+  end.
+
+Section StoreMemory.
+Variable sha256 : list N -> list N.
+
+Lemma store_node_eq o p ov cs st :
+  store_node sha256 (AN o p ov cs) st =
+  match o with
+  | Some (Some r) => (st, AN o p ov cs, r)
+  | _ =>
+      let '(st1, cs', refs) := store_children sha256 cs st in
+      let '(st2, ov', sv) := store_value sha256 ov st1 in
+      let body := enc_rec (mkRec (hash_node sha256 (erase (AN o p ov cs))) p sv (combine (labels cs) refs)) in
+      let '(st3, r) := store_raw st2 body in
+      (st3, AN (Some (Some r)) p ov' cs', r)
+  end.
+Proof. reflexivity. Qed.
+
+Lemma store_children_cons c t r st :
+  store_children sha256 (ACons c t r) st =
+  let '(st1, r', refs) := store_children sha256 r st in
+  let '(st2, t', x) := store_node sha256 t st1 in
+  (st2, ACons c t' r', x :: refs).
+Proof. reflexivity. Qed.
+
+Lemma store_value_memory ov st :
+  (match ov with Some (_, Some None) => true | None => true | _ => false end) = true ->
+  store_value sha256 ov st = migrate_value sha256 ov st.
+Proof.
+  unfold store_value, migrate_value. destruct ov as [[x [[r|]|]]|]; try discriminate; intros _; [|reflexivity].
+  destruct (lenN x <=? INLINE_VALUE_LEN); reflexivity.
+Qed.
+
+Lemma store_is_migrate_mut :
+  (forall t st, in_memory t = true -> store_node sha256 t st = migrate_node sha256 t st)
+  /\ (forall f st, in_memory_f f = true -> store_children sha256 f st = migrate_children sha256 f st).
+Proof.
+  apply atree_aforest_ind.
+  - intros o p ov cs IH st H. cbn [in_memory] in H. apply andb_true_iff in H as [H Hc].
+    apply andb_true_iff in H as [Ho Hv].
+    rewrite store_node_eq, migrate_node_eq, (IH st Hc).
+    destruct (migrate_children sha256 cs st) as [[st1 cs'] refs].
+    rewrite (store_value_memory ov st1 Hv).
+    destruct o as [[r|]|]; [discriminate | reflexivity | reflexivity].
+  - reflexivity.
+  - intros c t IHt r IHr st H. cbn [in_memory_f] in H. apply andb_true_iff in H as [Ht Hr].
+    rewrite store_children_cons, migrate_children_cons, (IHr st Hr).
+    destruct (migrate_children sha256 r st) as [[st1 r'] refs]. rewrite (IHt st1 Ht). reflexivity.
+Qed.
+
+Hypothesis sha_len : forall x, length (sha256 x) = 32%nat.
+
+(** [store_update] of an in-memory state into a store, then following the root reference
+    (what [load_from_location] + lookups do) yields the same tree with the right hashes. *)
+Theorem store_update_loads t st st' kept loaded top :
+  store_update sha256 (Some t) st = (st', kept, loaded, top) ->
+  in_memory t = true -> tree_ok t -> bounded st -> s_next st' < 2 ^ 64 ->
+  erase_root kept = Some (erase t) /\ erase_root loaded = Some (erase t)
+  /\ load_raw st' top = Some (1 :: be64 (match root_ref loaded with Some x => x | None => 0 end))
+  /\ exists x, root_ref loaded = Some x
+     /\ forall fuel, (theight (erase t) <= fuel)%nat ->
+          load_node fuel st' x = Some (erase t, hash_node sha256 (erase t)).
+Proof.
+  unfold store_update. intros E Hm Hok Hb Hn.
+  rewrite (proj1 store_is_migrate_mut t st Hm) in E.
+  destruct (migrate_node sha256 t st) as [[st1 t1] x] eqn:E1.
+  destruct (store_raw st1 (1 :: be64 x)) as [st2 tp] eqn:E2. injection E as <- <- <- <-.
+  assert (N12 : s_next st1 <= s_next st2).
+  { pose proof (store_raw_mono st1 (1 :: be64 x)) as H. rewrite E2 in H. exact H. }
+  destruct (proj1 (migrate_props_mut sha256 sha_len) t st st1 t1 x E1 Hb Hok ltac:(lia))
+    as (B1 & X1 & _ & _ & Et & Ld).
+  destruct (store_raw_props _ _ _ _ E2 B1) as (B2 & X2 & L2 & _ & _).
+  assert (Hroot : exists p ov cs, t1 = AN (Some (Some x)) p ov cs).
+  { destruct t as [o p ov cs]. rewrite migrate_node_eq in E1.
+    destruct (migrate_children sha256 cs st) as [[sa csa] rfa].
+    destruct (migrate_value sha256 ov sa) as [[sb ovb] svb]. cbv zeta in E1.
+    destruct (store_raw sb _) as [sc rc] in E1. injection E1 as _ <- <-. eauto. }
+  destruct Hroot as (p1 & ov1 & cs1 & ->).
+  assert (Hmem : match t with AN (Some (Some _)) _ _ _ => False | _ => True end).
+  { destruct t as [[[r|]|] p ov cs]; cbn in Hm; [discriminate | exact I | exact I]. }
+  split.
+  - destruct t as [[[r|]|] p ov cs]; [destruct Hmem | |]; cbn [erase_root option_map]; f_equal;
+      cbn [erase] in *; exact Et.
+  - split; [cbn [erase_root option_map]; rewrite Et; reflexivity|].
+    split; [cbn [root_ref]; exact L2|].
+    exists x. split; [reflexivity|]. intros fuel Hf. apply Ld; [exact X2 | exact Hf].
+Qed.
+
+End StoreMemory.
+
+(** * The byte-level store: [Loader::load_raw] on the flat [Vec<u8>] finds every record *)
+
+Inductive built : store -> Prop :=
+| built_empty : built empty_store
+| built_raw st d : built st -> lenN d < 2 ^ 64 -> built (fst (store_raw st d)).
+
+Lemma flatten_store_raw st d : flatten (fst (store_raw st d)) = flatten st ++ be64 (lenN d) ++ d.
+Proof.
+  unfold flatten, store_raw. cbn [fst s_recs rev]. rewrite flat_map_app. cbn [flat_map fst snd].
+  rewrite app_nil_r. reflexivity.
+Qed.
+
+Lemma lenN_be64 n : lenN (be64 n) = 8.
+Proof. unfold lenN, be64. rewrite enc_uint_length. reflexivity. Qed.
+
+Lemma built_next st : built st -> s_next st = lenN (flatten st).
+Proof.
+  induction 1 as [|st d _ IH _]; [reflexivity|].
+  rewrite flatten_store_raw, !lenN_app, lenN_be64, <- IH. unfold store_raw. cbn [fst s_next]. lia.
+Qed.
+
+Lemma take_more n X B h rest : take n X = Some (h, rest) -> take n (X ++ B) = Some (h, rest ++ B).
+Proof.
+  intros H. apply take_some in H as [-> Hl]. rewrite <- app_assoc. apply take_app. exact Hl.
+Qed.
+
+Lemma take_n_more n X B h rest : take_n n X = Some (h, rest) -> take_n n (X ++ B) = Some (h, rest ++ B).
+Proof.
+  unfold take_n. destruct (N.leb_spec n (len X)) as [Hle|]; [|discriminate]. intros H.
+  assert (Hle2 : (n <=? len (X ++ B)) = true).
+  { apply N.leb_le. unfold len in *. rewrite app_length. lia. }
+  rewrite Hle2. apply take_more. exact H.
+Qed.
+
+Lemma read_at_app A B r d : read_at A r = Some d -> read_at (A ++ B) r = Some d.
+Proof.
+  unfold read_at. destruct (N.leb_spec r (lenN A)) as [Hle|]; [|discriminate].
+  assert (Hle2 : (r <=? lenN (A ++ B)) = true) by (apply N.leb_le; rewrite lenN_app; lia).
+  rewrite Hle2, skipn_app.
+  assert (Hz : (N.to_nat r - length A = 0)%nat) by (unfold lenN in Hle; lia).
+  rewrite Hz. cbn [skipn]. unfold dec_uint.
+  destruct (take 8 (skipn (N.to_nat r) A)) as [[h rest]|] eqn:E; [|discriminate].
+  rewrite (take_more _ _ B _ _ E).
+  destruct (take_n (dec_le (rev h)) rest) as [[d' r2]|] eqn:E2; [|discriminate].
+  rewrite (take_n_more _ _ B _ _ E2). exact (fun H => H).
+Qed.
+
+Lemma read_at_end A d : lenN d < 2 ^ 64 -> read_at (A ++ be64 (lenN d) ++ d) (lenN A) = Some d.
+Proof.
+  intros Hd. unfold read_at.
+  assert (Hle : (lenN A <=? lenN (A ++ be64 (lenN d) ++ d)) = true) by (apply N.leb_le; rewrite lenN_app; lia).
+  rewrite Hle, skipn_app. unfold lenN at 1 2. rewrite Nat2N.id, skipn_all, Nat.sub_diag. cbn [skipn app].
+  unfold be64. rewrite dec_uint_enc by (unfold pow256; cbn; exact Hd).
+  rewrite <- (app_nil_r d) at 2. rewrite take_n_app. reflexivity.
+Qed.
+
+(** Every record of a store built by [store_raw] is found at its reference in the bytes. *)
+Theorem read_at_load st : built st -> forall r d, load_raw st r = Some d -> read_at (flatten st) r = Some d.
+Proof.
+  induction 1 as [|st d0 Hb IH Hd]; intros r d H; [discriminate|].
+  rewrite flatten_store_raw. unfold load_raw, store_raw in H. cbn [fst s_recs assoc_ref] in H.
+  destruct (N.eqb_spec r (s_next st)) as [->|_].
+  - injection H as <-. rewrite (built_next st Hb). apply read_at_end. exact Hd.
+  - apply read_at_app. apply IH. exact H.
+Qed.
+
+Section Built.
+Variable sha256 : list N -> list N.
+
+Lemma built_store_raw st d st' r :
+  store_raw st d = (st', r) -> built st -> s_next st' < 2 ^ 64 -> built st'.
+Proof.
+  intros E Hb Hn. replace st' with (fst (store_raw st d)) by (rewrite E; reflexivity).
+  constructor; [exact Hb|]. unfold store_raw in E. injection E as <- _. cbn [s_next] in Hn. lia.
+Qed.
+
+Lemma migrate_built_mut :
+  (forall t st, built st -> s_next (fst (fst (migrate_node sha256 t st))) < 2 ^ 64 ->
+                built (fst (fst (migrate_node sha256 t st))))
+  /\ (forall f st, built st -> s_next (fst (fst (migrate_children sha256 f st))) < 2 ^ 64 ->
+                built (fst (fst (migrate_children sha256 f st)))).
+Proof.
+  apply atree_aforest_ind.
+  - intros o p ov cs IH st Hb. rewrite migrate_node_eq. specialize (IH st Hb).
+    destruct (migrate_children sha256 cs st) as [[st1 cs'] refs]. cbn [fst] in IH.
+    pose proof (migrate_value_mono sha256 ov st1) as M2.
+    assert (V : s_next (fst (fst (migrate_value sha256 ov st1))) < 2 ^ 64 -> built st1 ->
+                built (fst (fst (migrate_value sha256 ov st1)))).
+    { unfold migrate_value. destruct ov as [[x a]|]; [|intros _ H; exact H].
+      destruct (lenN x <=? INLINE_VALUE_LEN); [intros _ H; exact H|].
+      destruct (store_raw st1 x) as [sx rx] eqn:Ex. cbn [fst]. intros Hn H.
+      eapply built_store_raw; eassumption. }
+    destruct (migrate_value sha256 ov st1) as [[st2 ov'] sv]. cbn [fst] in *. cbv zeta.
+    match goal with |- context [store_raw st2 ?b] => pose proof (store_raw_mono st2 b) as M3;
+      destruct (store_raw st2 b) as [st3 r3] eqn:E3 end.
+    cbn [fst] in *. intros Hn. eapply built_store_raw; [exact E3| |exact Hn].
+    apply V; [lia|]. apply IH. lia.
+  - intros st Hb _. exact Hb.
+  - intros c t IHt r IHr st Hb. rewrite migrate_children_cons. specialize (IHr st Hb).
+    destruct (migrate_children sha256 r st) as [[st1 r'] refs]. cbn [fst] in IHr.
+    specialize (IHt st1). pose proof (proj1 (migrate_mono_mut sha256) t st1) as M.
+    destruct (migrate_node sha256 t st1) as [[st2 t'] x]. cbn [fst] in *.
+    intros Hn. apply IHt; [|exact Hn]. apply IHr. lia.
+Qed.
+
+(** After [migrate] every record of the new store is found by the byte-level loader. *)
+Theorem migrate_bytes_readable r st' r' :
+  migrate sha256 r empty_store = (st', r') -> s_next st' < 2 ^ 64 ->
+  forall x d, load_raw st' x = Some d -> read_at (flatten st') x = Some d.
+Proof.
+  unfold migrate. destruct r as [t|]; [|intros E _; injection E as <- _; intros x d H; discriminate].
+  pose proof (proj1 migrate_built_mut t empty_store built_empty) as H.
+  destruct (migrate_node sha256 t empty_store) as [[st1 t1] y]. cbn [fst] in H.
+  intros E Hn. injection E as <- _. apply read_at_load. apply H. exact Hn.
+Qed.
+
+End Built.
+
+(** * Incremental [store_update]: states with parts already in the backing store *)
+
+Section Incremental.
+Variable sha256 : list N -> list N.
+Hypothesis sha_len : forall x, length (sha256 x) = 32%nat.
+
+(** Following the reference [r] in [st] (or any extension of it) loads [t] with its hash. *)
+Definition loads (st : store) (r : N) (t : tree value) : Prop :=
+  forall st'' fuel, extends st st'' -> (theight t <= fuel)%nat ->
+    load_node fuel st'' r = Some (t, hash_node sha256 t).
+
+Definition value_consistent (st : store) (ov : option aval) : Prop :=
+  match ov with
+  | Some (x, Some (Some r)) => INLINE_VALUE_LEN < lenN x -> load_raw st r = Some x /\ r < s_next st
+  | _ => True
+  end.
+
+(** Every located node really is at its location, every located long value too. *)
+Fixpoint consistent (st : store) (t : atree) : Prop :=
+  match t with
+  | AN o p ov cs =>
+      (match o with
+       | Some (Some r) => loads st r (Node p (option_map fst ov) (erase_f cs)) /\ r < s_next st
+       | _ => True
+       end)
+      /\ value_consistent st ov /\ consistent_f st cs
+  end
+with consistent_f (st : store) (f : aforest) : Prop :=
+  match f with ANil => True | ACons _ t r => consistent st t /\ consistent_f st r end.
+
+Lemma loads_ext st st' r t : extends st st' -> loads st r t -> loads st' r t.
+Proof. intros X L st'' fuel Hx Hf. apply L; [eapply extends_trans; eassumption | exact Hf]. Qed.
+
+Lemma value_consistent_ext st st' ov :
+  extends st st' -> s_next st <= s_next st' -> value_consistent st ov -> value_consistent st' ov.
+Proof.
+  intros X Hn. destruct ov as [[x [[r|]|]]|]; cbn; auto. intros H Hl. destruct (H Hl) as [A B].
+  split; [apply X; exact A | lia].
+Qed.
+
+Lemma consistent_ext_mut st st' : extends st st' -> s_next st <= s_next st' ->
+  (forall t, consistent st t -> consistent st' t) /\ (forall f, consistent_f st f -> consistent_f st' f).
+Proof.
+  intros X Hn. apply atree_aforest_ind.
+  - intros o p ov cs IH (A & B & C). cbn [consistent]. split; [|split; [eapply value_consistent_ext; eassumption | auto]].
+    destruct o as [[r|]|]; auto. destruct A as [A1 A2]. split; [eapply loads_ext; eassumption | lia].
+  - auto.
+  - intros c t IHt r IHr [A B]. split; auto.
+Qed.
+
+Lemma store_value_mono ov st : s_next st <= s_next (fst (fst (store_value sha256 ov st))).
+Proof.
+  unfold store_value. destruct ov as [[x a]|]; [|cbn; lia].
+  destruct (lenN x <=? INLINE_VALUE_LEN); [cbn; lia|].
+  destruct a as [[r|]|]; [cbn; lia| |];
+    (pose proof (store_raw_mono st x); destruct (store_raw st x) as [st1 r1]; cbn [fst] in *; assumption).
+Qed.
+
+Lemma store_mono_mut :
+  (forall t st, s_next st <= s_next (fst (fst (store_node sha256 t st))))
+  /\ (forall f st, s_next st <= s_next (fst (fst (store_children sha256 f st)))).
+Proof.
+  apply atree_aforest_ind.
+  - intros o p ov cs IH st. rewrite store_node_eq. specialize (IH st).
+    assert (G : s_next st <= s_next (fst (fst (
+      let '(st1, cs', refs) := store_children sha256 cs st in
+      let '(st2, ov', sv) := store_value sha256 ov st1 in
+      let body := enc_rec (mkRec (hash_node sha256 (erase (AN o p ov cs))) p sv (combine (labels cs) refs)) in
+      let '(st3, r) := store_raw st2 body in (st3, AN (Some (Some r)) p ov' cs', r))))).
+    { destruct (store_children sha256 cs st) as [[st1 cs'] refs]. cbn [fst] in IH.
+      pose proof (store_value_mono ov st1) as H2.
+      destruct (store_value sha256 ov st1) as [[st2 ov'] sv]. cbn [fst] in H2. cbv zeta.
+      match goal with |- context [store_raw st2 ?b] => pose proof (store_raw_mono st2 b) as H3;
+        destruct (store_raw st2 b) as [st3 r3] end.
+      cbn [fst] in *. lia. }
+    destruct o as [[r|]|]; [cbn; lia | exact G | exact G].
+  - intros st. cbn. lia.
+  - intros c t IHt r IHr st. rewrite store_children_cons. specialize (IHr st).
+    destruct (store_children sha256 r st) as [[st1 r'] refs]. cbn [fst] in IHr.
+    specialize (IHt st1). destruct (store_node sha256 t st1) as [[st2 t'] x]. cbn [fst] in *. lia.
+Qed.
+
+Lemma store_value_props ov st st' ov' sv :
+  store_value sha256 ov st = (st', ov', sv) -> bounded st -> s_next st' < 2 ^ 64 -> value_consistent st ov ->
+  bounded st' /\ extends st st' /\ s_next st <= s_next st'
+  /\ option_map fst ov' = option_map fst ov
+  /\ (match sv with Some s => svalue_ok s | None => True end)
+  /\ value_consistent st' ov'
+  /\ (forall st'', extends st' st'' -> load_value st'' sv = Some (option_map fst ov)).
+Proof.
+  unfold store_value. destruct ov as [[x a]|].
+  - destruct (N.leb_spec (lenN x) INLINE_VALUE_LEN) as [Hs|Hs].
+    + intros E Hb _ Hc. injection E as <- <- <-.
+      repeat split; try assumption; try apply extends_refl; try lia; try exact Hs.
+    + assert (Fresh : forall st1 r, store_raw st x = (st1, r) -> bounded st -> s_next st1 < 2 ^ 64 ->
+                bounded st1 /\ extends st st1 /\ s_next st <= s_next st1
+                /\ svalue_ok (SIndirect (hash_value sha256 x) r)
+                /\ value_consistent st1 (Some (x, Some (Some r)))
+                /\ (forall st'', extends st1 st'' ->
+                      load_value st'' (Some (SIndirect (hash_value sha256 x) r)) = Some (Some x))).
+      { intros st1 r E1 Hb Hn. destruct (store_raw_props _ _ _ _ E1 Hb) as (B & X & L & Hr & Hnext).
+        repeat split; try assumption; try lia.
+        - unfold hash_value. apply sha_len.
+        - intros st'' Hx. cbn [load_value]. rewrite (Hx _ _ L). reflexivity. }
+      destruct a as [[r|]|].
+      * intros E Hb Hn Hc. injection E as <- <- <-. destruct (Hc Hs) as [Hl Hr].
+        repeat split; try assumption; try apply extends_refl; try lia.
+        -- unfold hash_value. apply sha_len.
+        -- intros st'' Hx. cbn [load_value]. rewrite (Hx _ _ Hl). reflexivity.
+      * destruct (store_raw st x) as [st1 r] eqn:E1. intros E Hb Hn _. injection E as <- <- <-.
+        destruct (Fresh st1 r eq_refl Hb Hn) as (A & B & C & D & F & G).
+        split; [exact A|]. split; [exact B|]. split; [exact C|]. split; [reflexivity|].
+        split; [exact D|]. split; [exact F | exact G].
+      * destruct (store_raw st x) as [st1 r] eqn:E1. intros E Hb Hn _. injection E as <- <- <-.
+        destruct (Fresh st1 r eq_refl Hb Hn) as (A & B & C & D & F & G).
+        split; [exact A|]. split; [exact B|]. split; [exact C|]. split; [reflexivity|].
+        split; [exact D|]. split; [exact F | exact G].
+  - intros E Hb _ _. injection E as <- <- <-. repeat split; try assumption; try apply extends_refl; lia.
+Qed.
+
+Lemma store_props_mut :
+  (forall t st st' t' r, store_node sha256 t st = (st', t', r) -> bounded st -> tree_ok t -> consistent st t ->
+      s_next st' < 2 ^ 64 ->
+      bounded st' /\ extends st st' /\ s_next st <= s_next st' /\ r < s_next st'
+      /\ erase t' = erase t /\ consistent st' t' /\ loads st' r (erase t)
+      /\ exists p ov cs, t' = AN (Some (Some r)) p ov cs)
+  /\ (forall f st st' f' refs, store_children sha256 f st = (st', f', refs) -> bounded st -> forest_ok f ->
+      consistent_f st f -> s_next st' < 2 ^ 64 ->
+      bounded st' /\ extends st st' /\ s_next st <= s_next st'
+      /\ Forall (fun x => x < s_next st') refs /\ length refs = aflen f
+      /\ erase_f f' = erase_f f /\ consistent_f st' f'
+      /\ forall st'' fuel, extends st' st'' -> (fheight (erase_f f) <= fuel)%nat ->
+           load_kids_with (load_node fuel st'') (combine (labels f) refs) = Some (erase_f f)).
+Proof.
+  apply atree_aforest_ind.
+  - intros o p ov cs IH st st' t' r E Hb [Hp Hf] (Co & Cv & Cc) Hn. rewrite store_node_eq in E.
+    assert (Located : forall r0, o = Some (Some r0) ->
+              bounded st' /\ extends st st' /\ s_next st <= s_next st' /\ r < s_next st'
+              /\ erase t' = erase (AN o p ov cs) /\ consistent st' t' /\ loads st' r (erase (AN o p ov cs))
+              /\ exists p1 ov1 cs1, t' = AN (Some (Some r)) p1 ov1 cs1).
+    { intros r0 ->. injection E as <- <- <-. destruct Co as [L Hr].
+      repeat split; try assumption; try apply extends_refl; try lia. eauto. }
+    assert (Fresh : (forall r0, o <> Some (Some r0)) ->
+              (let '(st1, cs', refs) := store_children sha256 cs st in
+               let '(st2, ov', sv) := store_value sha256 ov st1 in
+               let body := enc_rec (mkRec (hash_node sha256 (erase (AN o p ov cs))) p sv (combine (labels cs) refs)) in
+               let '(st3, r) := store_raw st2 body in (st3, AN (Some (Some r)) p ov' cs', r)) = (st', t', r) ->
+              bounded st' /\ extends st st' /\ s_next st <= s_next st' /\ r < s_next st'
+              /\ erase t' = erase (AN o p ov cs) /\ consistent st' t' /\ loads st' r (erase (AN o p ov cs))
+              /\ exists p1 ov1 cs1, t' = AN (Some (Some r)) p1 ov1 cs1).
+    { intros _ E'. clear E Located.
+      destruct (store_children sha256 cs st) as [[st1 cs'] refs] eqn:E1.
+      destruct (store_value sha256 ov st1) as [[st2 ov'] sv] eqn:E2.
+      cbv zeta in E'. destruct (store_raw st2 _) as [st3 r3] eqn:E3 in E'. injection E' as <- <- <-.
+      assert (N23 : s_next st2 <= s_next st3).
+      { match type of E3 with store_raw st2 ?b = _ => pose proof (store_raw_mono st2 b) as H end.
+        rewrite E3 in H. exact H. }
+      assert (N12 : s_next st1 <= s_next st2).
+      { pose proof (store_value_mono ov st1) as H. rewrite E2 in H. exact H. }
+      destruct (IH st st1 cs' refs E1 Hb Hf Cc ltac:(lia)) as (B1 & X1 & L1 & R1 & Len1 & Er1 & Cc1 & Ld1).
+      assert (Cv1 : value_consistent st1 ov) by (eapply value_consistent_ext; eassumption).
+      destruct (store_value_props _ _ _ _ _ E2 B1 ltac:(lia) Cv1) as (B2 & X2 & L2 & Ev & Sv & Cv2 & Lv).
+      destruct (store_raw_props _ _ _ _ E3 B2) as (B3 & X3 & L3 & Hr3 & Hnext3).
+      assert (X13 : extends st1 st3) by (eapply extends_trans; eassumption).
+      assert (Ld : loads st3 r3 (erase (AN o p ov cs))).
+      { intros st'' fuel Hx Hfuel. cbn [erase theight] in Hfuel.
+        destruct fuel as [|fuel']; [lia|]. cbn [load_node].
+        rewrite (Hx _ _ L3). rewrite <- (app_nil_r (enc_rec _)). rewrite dec_rec_enc.
+        + cbn [r_value r_children r_path r_hash].
+          rewrite (Lv st'') by (eapply extends_trans; [exact X3 | exact Hx]).
+          rewrite (Ld1 st'' fuel') by (try (eapply extends_trans; [exact X13 | exact Hx]); lia).
+          reflexivity.
+        + unfold rec_ok. cbn [r_value r_children r_path r_hash].
+          split; [apply sha_len|]. split; [exact Hp|]. split; [exact Sv|].
+          unfold kids_ok.
+          assert (Hlt : Forall (fun x => x < 2 ^ 64) refs) by (eapply Forall_impl; [|exact R1]; cbn; intros; lia).
+          clear - Hlt. generalize (labels cs). intros ls. revert ls.
+          induction Hlt as [|x refs Hx _ IHr]; intros [|c ls]; cbn [combine]; constructor; auto. }
+      split; [exact B3|]. split; [eapply extends_trans; [exact X1 | exact X13]|].
+      split; [lia|]. split; [lia|].
+      split; [cbn [erase]; rewrite Ev, Er1; reflexivity|].
+      split.
+      - cbn [consistent]. split; [|split].
+        + split; [|lia]. rewrite Ev, Er1. exact Ld.
+        + eapply value_consistent_ext; [exact X3 | lia | exact Cv2].
+        + apply (proj2 (consistent_ext_mut st1 st3 X13 ltac:(lia))). exact Cc1.
+      - split; [exact Ld | eauto]. }
+    destruct o as [[r0|]|].
+    + apply (Located r0 eq_refl).
+    + apply Fresh; [intros r0; discriminate | exact E].
+    + apply Fresh; [intros r0; discriminate | exact E].
+  - intros st st' f' refs E Hb _ _ Hn. cbn [store_children] in E. injection E as <- <- <-.
+    repeat split; try assumption; try apply extends_refl; try lia; constructor.
+  - intros c t IHt r IHr st st' f' refs E Hb [Ht Hr] [Ct Cr] Hn. rewrite store_children_cons in E.
+    destruct (store_children sha256 r st) as [[st1 r'] refs1] eqn:E1.
+    destruct (store_node sha256 t st1) as [[st2 t'] x] eqn:E2. injection E as <- <- <-.
+    assert (N12 : s_next st1 <= s_next st2).
+    { pose proof (proj1 store_mono_mut t st1) as H. rewrite E2 in H. exact H. }
+    destruct (IHr st st1 r' refs1 E1 Hb Hr Cr ltac:(lia)) as (B1 & X1 & L1 & R1 & Len1 & Er1 & Cr1 & Ld1).
+    assert (Ct1 : consistent st1 t) by (apply (proj1 (consistent_ext_mut st st1 X1 L1)); exact Ct).
+    destruct (IHt st1 st2 t' x E2 B1 Ht Ct1 Hn) as (B2 & X2 & L2 & R2 & Et & Ct2 & Ldt & _).
+    split; [exact B2|]. split; [eapply extends_trans; eassumption|]. split; [lia|].
+    split; [constructor; [exact R2|]; eapply Forall_impl; [|exact R1]; cbn; intros; lia|].
+    split; [cbn [length aflen]; rewrite Len1; reflexivity|].
+    split; [cbn [erase_f]; rewrite Et, Er1; reflexivity|].
+    split; [split; [exact Ct2 | apply (proj2 (consistent_ext_mut st1 st2 X2 L2)); exact Cr1]|].
+    intros st'' fuel Hx Hfuel. cbn [erase_f fheight] in Hfuel.
+    cbn [labels combine load_kids_with erase_f].
+    rewrite (Ldt st'' fuel Hx) by lia.
+    rewrite (Ld1 st'' fuel) by (try (eapply extends_trans; eassumption); lia).
+    reflexivity.
+Qed.
+
+(** [store_update] of ANY state that is consistent with the store (fresh, loaded, or frozen
+    after modifications of a stored state): the written top record names the root, following
+    the references loads the same tree with the right hash, and both resulting states (the
+    one kept in memory and the one [load_from_location] gives) are consistent again. *)
+Theorem store_update_incremental t st st' kept loaded top :
+  store_update sha256 (Some t) st = (st', kept, loaded, top) ->
+  tree_ok t -> bounded st -> consistent st t -> s_next st' < 2 ^ 64 ->
+  erase_root kept = Some (erase t) /\ erase_root loaded = Some (erase t)
+  /\ (exists x, root_ref loaded = Some x /\ load_raw st' top = Some (1 :: be64 x)
+                /\ loads st' x (erase t))
+  /\ bounded st'
+  /\ (match kept with Some k => consistent st' k | None => False end)
+  /\ (match loaded with Some l => consistent st' l | None => False end).
+Proof.
+  unfold store_update. intros E Hok Hb Hc Hn.
+  destruct (store_node sha256 t st) as [[st1 t1] x] eqn:E1.
+  destruct (store_raw st1 (1 :: be64 x)) as [st2 tp] eqn:E2. injection E as <- <- <- <-.
+  assert (N12 : s_next st1 <= s_next st2).
+  { pose proof (store_raw_mono st1 (1 :: be64 x)) as H. rewrite E2 in H. exact H. }
+  destruct (proj1 store_props_mut t st st1 t1 x E1 Hb Hok Hc ltac:(lia))
+    as (B1 & X1 & L1 & Rx & Et & C1 & Ld & (p1 & ov1 & cs1 & ->)).
+  destruct (store_raw_props _ _ _ _ E2 B1) as (B2 & X2 & L2 & _ & _).
+  assert (C2 : consistent st2 (AN (Some (Some x)) p1 ov1 cs1))
+    by (apply (proj1 (consistent_ext_mut st1 st2 X2 N12)); exact C1).
+  split; [|split; [|split; [|split; [|split]]]].
+  - destruct t as [[[r0|]|] p ov cs]; cbn [erase_root option_map]; f_equal; cbn [erase] in *; try exact Et; reflexivity.
+  - cbn [erase_root option_map]. rewrite Et. reflexivity.
+  - exists x. split; [reflexivity|]. split; [exact L2|]. eapply loads_ext; [exact X2 | exact Ld].
+  - exact B2.
+  - destruct t as [[[r0|]|] p ov cs].
+    + apply (proj1 (consistent_ext_mut st st2 ltac:(eapply extends_trans; eassumption) ltac:(lia))). exact Hc.
+    + destruct C2 as (_ & Cv & Cc). cbn [consistent]. auto.
+    + destruct C2 as (_ & Cv & Cc). cbn [consistent]. auto.
+  - exact C2.
+Qed.
+
+End Incremental.
